@@ -138,6 +138,9 @@ type symxLog struct {
 	failAppend bool
 	appends    int
 	notify     chan struct{}
+	// resume, when set before the consumer starts, holds the consumer "between two polls" (the real
+	// commit log's consumer polls an idle log every 100 ms) until the harness closes it
+	resume chan struct{}
 }
 
 func symxNewLog(base uint64) *symxLog { return &symxLog{base: base, notify: make(chan struct{}, 64)} }
@@ -168,6 +171,13 @@ func (l *symxLog) Get(offset uint64) (*packet.Publish, error) {
 func (l *symxLog) Consume(ctx context.Context, consumerName string, f func(uint64, *packet.Publish) error) error {
 	next := l.base
 	for {
+		if l.resume != nil {
+			select {
+			case <-ctx.Done():
+				return nil
+			case <-l.resume:
+			}
+		}
 		l.mu.Lock()
 		var p *packet.Publish
 		if next < l.base+uint64(len(l.entries)) {
@@ -312,8 +322,15 @@ func (p *symxPipeline) front(a *symxAuth) *symxFront {
 func (f *symxFront) connect(c *symxConn, connectBytes []byte) error {
 	c.feed(connectBytes)
 	w := &setupWorker{manager: f.mgr, decoder: decoder.New(), encoder: encoder.New(), authHandler: f.auth, state: f.state, local: f.local, writer: f.writer}
-	return w.setup(f.ctx, transport.Metadata{Name: "tcp", Channel: c})
+	err := w.setup(f.ctx, transport.Metadata{Name: "tcp", Channel: c})
+	if err != nil {
+		c.Close() // what manager.runSetupper does with a failed setup
+	}
+	return err
 }
+
+// symxCleanSession is the CleanSession bit of the CONNECT packets built by symxConnectBytes.
+var symxCleanSession = true
 
 func symxLP(b []byte) []byte { return append([]byte{byte(len(b) >> 8), byte(len(b))}, b...) }
 
@@ -336,7 +353,10 @@ func symxFrame(first byte, body []byte) []byte {
 
 // symxConnectBytes encodes an MQTT 3.1.1 CONNECT.
 func symxConnectBytes(clientID string, keepalive uint16, user string, willTopic, willPayload []byte, willQos byte, willRetain bool) []byte {
-	var flags byte = 2 // clean session
+	var flags byte
+	if symxCleanSession {
+		flags = 2
+	}
 	body := append(symxLP([]byte("MQTT")), 4)
 	if len(willTopic) > 0 {
 		flags |= 4 | (willQos << 3)
